@@ -390,7 +390,7 @@ func genC10(r *rand.Rand, tier string, idx int) *World {
 	w.Cfg.PCrash, w.Cfg.PLost = 0, 0
 	nset := r.IntN(3)
 	for i := 0; i < nset; i++ {
-		sd := &SettingDef{NS: "ns1", Name: fmt.Sprintf("set%d", i), Ref: "foo", Container: pick(r, "main", "main", "side"), Cpu: pick(r, "500m", "600m"), AgeSec: pick(r, -1, 0, 30, 60)}
+		sd := &SettingDef{NS: "ns1", Name: fmt.Sprintf("set%d", i), Ref: "foo", Container: pick(r, "main", "main", "side"), Cpu: pick(r, "500m", "600m", "0.5"), AgeSec: pick(r, -1, 0, 30, 60)}
 		if sd.Container == "main" && chance(r, 0.4) {
 			sd.Container2, sd.Cpu2 = "side", pick(r, "150m", "250m") // two containers: an override of the first must not disturb the second
 		}
@@ -714,6 +714,10 @@ func bodyC19(s *Sim) {
 				s.Violate("C19", "refusal", "validate", "canary-validate refused (%v) although %s is the running canary and was not validated before", t.Err, canaryERS)
 			case cmd == "canary-fail":
 				s.Violate("C19", "refusal", "fail", "canary-fail refused (%v) although %s is the running canary", t.Err, canaryERS)
+			case cmd == "canary-unpause" && cur.Annotations[edsv1.ExtendedDaemonSetCanaryPausedAnnotationKey] != "false" && condPaused:
+				s.Violate("C19", "refusal", "unpause", "canary-unpause refused (%v) although the canary %s had paused itself (canary-paused annotation %q)", t.Err, canaryERS, cur.Annotations[edsv1.ExtendedDaemonSetCanaryPausedAnnotationKey])
+			case cmd == "canary-pause" && cur.Annotations[edsv1.ExtendedDaemonSetCanaryPausedAnnotationKey] != "true":
+				s.Violate("C19", "refusal", "pause", "canary-pause refused (%v) although the canary %s is running and not paused by annotation", t.Err, canaryERS)
 			}
 		}
 		return
@@ -1371,6 +1375,7 @@ func init() {
 			w.Extra["templateName"] = "agent"
 			w.Extra["namedEdits"] = "1"
 		}
+		w.Cfg.LabelEdits = chance(r, 0.3)
 		return w
 	}
 	hp.Body = func(s *Sim) {
